@@ -1153,3 +1153,53 @@ def ready_for_query_status_findings(F):
                     "ReadyForQuery '%s' does not leave Server.in_transaction set%s: a %s is taken for `no transaction` - the server is released after the statement, check-in sends no ROLLBACK and opens the gate, "
                     "the next client's statements run inside the previous client's transaction block" % (nm, " (its arm is the one that clears it)" if bad_clear else "", "failed transaction block" if nm == "E" else "transaction in progress")))
     return out
+
+
+
+def select_cancelled_read_findings(F):
+    """read_message is not cancel-safe. Where it is one branch of a `select!` in Client::handle, the other branches winning cancels it - possibly after it has taken
+    the header of a message off the socket. A branch that wins must therefore not go on reading the same client (it may give the client up). Returns
+    [(key, ok, good, bad, where)] or None. (`select!` arm _i waits for the i-th element of the macro's tuple of branch futures.)"""
+    h = F.body("pgcat::client::Client::handle::{closure#0}")
+    if h is None:
+        return None
+    out = []
+    sws = switches(h)
+    n = 0
+    for sw in sws:
+        d = sw.discr()
+        if not (d and re.search(r"__tokio_select_util::Out<", d[0])) or d[0].startswith("core::task::poll::Poll<"):
+            continue
+        # (the variant names of the macro's output enum are not reliable across several select!s of one crate: arms are taken by discriminant value)
+        # the tuple of this select: the nearest dominating `futures` tuple
+        cands = []
+        for bi, blk in enumerate(h.blocks):
+            for st in blk["stmts"]:
+                if st["k"] == "assign" and st["rv"]["k"] == "agg" and st["rv"]["agg"] == "tuple" and not st["lhs"]["p"] and "futures" in h.varnames.get(st["lhs"]["l"], []) and h.dominates(bi, sw.block):
+                    cands.append((bi, st["rv"]["ops"]))
+        if not cands:
+            continue
+        tup = max(cands, key=lambda x: len([b_ for b_ in range(h.nblocks) if h.dominates(b_, x[0])]))[1]
+        arms = {"_%d" % v: t for v, t in sw.targets if isinstance(v, int) and 0 <= v < len(tup)}
+        reads = [i for i, op in enumerate(tup) if any(o.kind == "call" and o.call.name == "pgcat::messages::read_message" for o in origins(h, op))]
+        if not reads:
+            continue
+        n += 1
+        heads = [hd for hd in loop_headers(h) if sw.block in natural_loop(h, hd)]
+        head = max(heads) if heads else None
+        for i, op in enumerate(tup):
+            if i in reads or ("_%d" % i) not in arms:
+                continue
+            what = sorted({o.call.name.split("::")[-1] for o in origins(h, op) if o.kind == "call"})
+            tgt = arms["_%d" % i]
+            region = {b_ for b_ in h.reach([tgt], avoid_blocks=[head] if head is not None else []) if h.dominates(tgt, b_)}
+            again = [c for c in h.calls("pgcat::messages::read_message", "re:AsyncBufReadExt::fill_buf$|AsyncReadExt::read(_exact|_u8|_i32|_buf)?$") if c.block in region]
+            # ... or round the loop, into the same select again
+            back = head is not None and any(head in h.succ("n")[b_] or any(s_ == head for s_ in h.succ("n")[b_]) for b_ in region)
+            ok = not again and not back
+            out.append(("select-cancelled-read=>gone#%d:%s" % (n, "+".join(what)[:40]), ok,
+                        "the branch of the select that wins over read_message (%s) does not read from that client again" % what,
+                        "when %s wins the select, read_message is dropped - possibly with the header of a message already taken off the socket - and the branch goes on reading the same client%s: the rest of the "
+                        "interrupted message is framed as a new message (`Unexpected length value`) and the client - an admin at a graceful shutdown, who is to keep working - is disconnected"
+                        % (what, " (%s)" % again[0].name.split("::")[-1] if again else " (next turn of the loop)"), (again[0].where() if again else "")))
+    return out if n else None
